@@ -3,6 +3,7 @@ package cmd
 import (
 	"fmt"
 	"strings"
+	"sync"
 
 	inkio "github.com/angelsolaorbaiceta/inkfem/io"
 	iopre "github.com/angelsolaorbaiceta/inkfem/io/pre"
@@ -61,6 +62,7 @@ func solveStructure(cmd *cobra.Command, args []string) {
 		inputFilePath = args[0]
 		outPath       = strings.TrimSuffix(inputFilePath, inkio.DefinitionFileExt)
 		preStructure  *preprocess.Structure
+		preFileDone   sync.WaitGroup
 	)
 
 	if inkio.IsDefinitionFile(inputFilePath) {
@@ -74,7 +76,9 @@ func solveStructure(cmd *cobra.Command, args []string) {
 		preStructure = preprocessStructure(structure, options)
 
 		if solvePreprocessToFile {
+			preFileDone.Add(1)
 			go (func() {
+				defer preFileDone.Done()
 				file := inkio.CreateFile(outPath + inkio.PreFileExt)
 				defer file.Close()
 				iopre.Write(preStructure, file)
@@ -104,6 +108,7 @@ func solveStructure(cmd *cobra.Command, args []string) {
 	defer solFile.Close()
 
 	iosol.Write(solution, solFile)
+	preFileDone.Wait()
 
 	log.Result()
 }
